@@ -84,4 +84,12 @@ Section C01_concrete.
     length (if sentinel then centers cons else prev) = 6%nat ->
     In s (inverse_continuing_5dof PI cons Iso K5 pose sentinel prev) -> near_xyz pose (fwd p (j6_of s)).
   Proof. intros pose sentinel prev s Hl Hs. eapply continuing_5dof_reaches; eauto using ik_theta5_def_len. Qed.
+
+  (** an unreachable pose (no joint vector is accepted by the pose comparison) yields the empty list *)
+  Theorem C01_unreachable_empty : forall dof pose, dof <> 5%Z ->
+    (forall s, ~ near pose (fwd p (j6_of s))) -> inverse PI dof cons Iso K K5 pose = [].
+  Proof.
+    intros dof pose Hd Hun. destruct (inverse PI dof cons Iso K K5 pose) as [|s l] eqn:E; [reflexivity|]. exfalso.
+    apply (Hun s). eapply C01_concrete_inverse; [exact Hd|]. rewrite E. left. reflexivity.
+  Qed.
 End C01_concrete.
